@@ -714,3 +714,173 @@ Lemma lazy_nd_example :
   /\ run_lazy_nd [5; 2] [] [AList []; AInt 5] = Err
   /\ run_lazy_nd [5] [] [ASlice None None (Some (-1))] = Err.
 Proof. repeat split; vm_compute; try reflexivity; discriminate. Qed.
+
+(* ------------------------------------------------------------------ completeness: the loop answers whenever the 1-D model does *)
+
+Definition plan_mono (p : plan) : Prop :=
+  match p with PScalar _ => True | PSegs l => Forall (fun s => sg_o1 s <= sg_o2 s) l end.
+
+Lemma sparse_mono : forall rs off, Forall (fun p => fst p <= snd p) rs ->
+  Forall (fun s => sg_o1 s <= sg_o2 s) (sparse_segs off rs).
+Proof.
+  induction rs as [|[s e] r IH]; intros off H; cbn [sparse_segs]; [constructor|].
+  inversion H; subst. cbn in *. constructor; [cbn; lia|apply IH; assumption].
+Qed.
+
+Lemma adv_plan_mono n l p : increasing l = true -> adv_plan n l = Ok p -> plan_mono p.
+Proof.
+  intro Hinc. unfold adv_plan. destruct l as [|x r].
+  - intro H; injection H as <-. cbn. constructor; [cbn; lia|constructor].
+  - unfold lazy_out_of_range. destruct ((x <? 0) || (n <=? last (x :: r) 0)) eqn:E; [discriminate|].
+    intro H; injection H as <-. unfold adv_segs. destruct (dense _ _ _).
+    + cbn [plan_mono]. constructor; [cbn [sg_o1 sg_o2]; apply zlen_nonneg|constructor].
+    + cbn [plan_mono]. apply sparse_mono.
+      pose proof (increasing_last_ub _ _ Hinc) as Hub.
+      assert (Hb : Forall (fun p => 0 <= fst p /\ fst p <= snd p /\ snd p <= last (x :: r) 0 + 1) (segments (x :: r))).
+      { unfold segments. apply runs_bounds; auto; try lia.
+        eapply Forall_impl; [|exact Hub]. intros a Ha. cbn beta in Ha. lia. }
+      eapply Forall_impl; [|exact Hb]. cbn. intros; lia.
+Qed.
+
+Lemma axis_plan_mono n m p : 0 <= n -> axis_plan n m = Ok p -> plan_mono p.
+Proof.
+  intro Hn. destruct m as [z|a b c|msk|l]; cbn [axis_plan].
+  - intro H; injection H as <-. exact Logic.I.
+  - destruct (slice_indices n a b c) as [[[s e] st]|] eqn:E; [|discriminate]. intro H; injection H as <-.
+    destruct (slice_indices_bounds _ _ _ _ _ _ _ Hn E) as [H0 _].
+    cbn. constructor; [cbn; pose proof (range_len_nonneg s e st H0); lia|constructor].
+  - destruct (zlen msk =? n); [|discriminate]. apply adv_plan_mono. apply nonzero_from_increasing.
+  - rewrite sorted_ok_increasing. destruct (increasing l) eqn:E; [|discriminate]. now apply adv_plan_mono.
+Qed.
+
+Lemma seg_total_nonneg l : Forall (fun s => sg_o1 s <= sg_o2 s) l -> 0 <= seg_total l.
+Proof. induction 1 as [|s r Hs _ IH]; cbn; [lia|]. fold (seg_total r). lia. Qed.
+
+Lemma tiled_bounds : forall l off, seg_tiles off l -> Forall (fun s => sg_o1 s <= sg_o2 s) l ->
+  Forall (fun s => off <= sg_o1 s /\ sg_o2 s <= off + seg_total l) l.
+Proof.
+  induction l as [|s r IH]; intros off HT HM; [constructor|].
+  cbn [seg_tiles] in HT. destruct HT as [Ho HT]. inversion HM as [|? ? Hs HM']; subst.
+  pose proof (seg_total_nonneg r HM') as Hr.
+  cbn [seg_total fold_right]. fold (seg_total r). constructor; [lia|].
+  eapply Forall_impl; [|exact (IH (sg_o2 s) HT HM')]. cbn. intros a [A1 A2]. lia.
+Qed.
+
+Lemma do_segs_each n : forall l out out', do_segs n out l = Ok out' ->
+  Forall (fun s => exists o1 o2, do_seg n o1 s = Ok o2) l.
+Proof.
+  induction l as [|s r IH]; intros out out' H; [constructor|]. cbn [do_segs] in H.
+  destruct (do_seg n out s) as [o|] eqn:E; [|discriminate]. cbn [bind] in H.
+  constructor; [eauto|eapply IH; exact H].
+Qed.
+
+(* a segment the 1-D model can read, post-select and assign is accepted by the loop *)
+Lemma do_seg_axis_w n tot s o1 o2 : do_seg n o1 s = Ok o2 ->
+  0 <= sg_o1 s -> sg_o1 s <= sg_o2 s -> sg_o2 s <= tot -> exists w, axis_w n tot (CSeg s) = Ok w.
+Proof.
+  intros H B1 B2 B3. unfold do_seg in H.
+  destruct (ds_read _ _ _ _) as [ps|] eqn:ER; [|discriminate]. cbn [bind] in H.
+  rewrite post_select_post_sel in H.
+  destruct (post_sel (zlen ps) (sg_post s)) as [idx|] eqn:EP; [|discriminate]. cbn [bind] in H.
+  unfold assign in H. rewrite zlen_map in H.
+  unfold axis_w. cbn [axis_part]. rewrite ER. cbn [bind]. rewrite EP. cbn [bind]. cbv zeta.
+  assert (EB : (0 <=? sg_o1 s) && (sg_o1 s <=? sg_o2 s) && (sg_o2 s <=? tot) = true) by lia.
+  destruct (zlen idx =? sg_o2 s - sg_o1 s).
+  - cbn [bind]. rewrite EB. cbn [bind]. eauto.
+  - destruct (zlen idx =? 1); [|discriminate]. cbn [bind]. rewrite EB. cbn [bind]. eauto.
+Qed.
+
+Lemma axis_gather_ws a G : plan_tiled (snd a) -> plan_mono (snd a) -> axis_gather (fst a) (snd a) = Ok G ->
+  exists W, axis_ws a = Ok W.
+Proof.
+  destruct a as [n p]. cbn [fst snd]. intros HT HM HG. unfold axis_ws, csegs_of. cbn [fst snd].
+  destruct p as [z|l]; cbn [plan_csegs].
+  - cbn [axis_gather] in HG. cbn [mapM]. unfold axis_w. cbn [axis_part].
+    destruct (wrap_res n z); [|discriminate]. cbn [bind]. eauto.
+  - cbn [plan_tiled plan_mono plan_total] in *. destruct HT as [_ HT].
+    cbn [axis_gather] in HG. destruct (do_segs _ _ _) as [out|] eqn:ED; [|discriminate].
+    pose proof (do_segs_each _ _ _ _ ED) as HE. pose proof (tiled_bounds l 0 HT HM) as HB.
+    apply mapM_all_ok. intros c Hc. apply in_map_iff in Hc. destruct Hc as [s [<- Hs]].
+    rewrite Forall_forall in HE, HB, HM. destruct (HE s Hs) as [o1 [o2 Ho]]. destruct (HB s Hs) as [B1 B2].
+    destruct (do_seg_axis_w n (seg_total l) s o1 o2 Ho ltac:(lia) (HM s Hs) ltac:(lia)) as [w Hw]. congruence.
+Qed.
+
+Lemma nd_extract_complete garbage shape plans ds sels :
+  List.length plans = List.length shape -> Forall plan_tiled plans -> Forall plan_mono plans ->
+  (forall sh, shaped sh (garbage sh)) ->
+  mapM (fun a => axis_gather (fst a) (snd a)) (combine shape plans) = Ok sels ->
+  nd_extract garbage shape plans ds = Ok (take ds sels) /\ take_shape sels = out_shape_of plans.
+Proof.
+  intros HL HT HM Hg HG. unfold nd_extract.
+  set (axes := combine shape plans) in *.
+  assert (HS : map snd axes = plans) by (unfold axes; now apply map_snd_combine).
+  assert (HTa : Forall (fun a => plan_tiled (snd a)) axes).
+  { apply Forall_forall. intros a Ha. rewrite Forall_forall in HT. apply HT. rewrite <- HS. now apply in_map. }
+  assert (HMa : Forall (fun a => plan_mono (snd a)) axes).
+  { apply Forall_forall. intros a Ha. rewrite Forall_forall in HM. apply HM. rewrite <- HS. now apply in_map. }
+  (* every axis has its writes *)
+  assert (HW : exists Ws, mapM axis_ws axes = Ok Ws).
+  { apply mapM_all_ok. intros a Ha E. rewrite Forall_forall in HTa, HMa.
+    destruct (mapM_ok_in _ _ _ a HG Ha) as [G EG].
+    destruct (axis_gather_ws a G (HTa a Ha) (HMa a Ha) EG) as [W EW]. congruence. }
+  destruct HW as [Ws HW].
+  destruct (axes_gather axes Ws HTa HW) as [Gs [HG' [TG SG]]].
+  rewrite HG in HG'. injection HG' as <-. rewrite HS in SG. split; [|exact SG].
+  destruct (forallb plan_is_scalar plans) eqn:ES.
+  - assert (E : mapM (fun a => scalar_sel (fst a) (snd a)) axes = Ok sels).
+    { rewrite <- HG. apply mapM_ext_in. intros a Ha. rewrite forallb_forall in ES. specialize (ES (snd a)).
+      rewrite <- HS in ES. specialize (ES (in_map _ _ _ Ha)). destruct (snd a); [reflexivity|discriminate]. }
+    rewrite E. reflexivity.
+  - assert (E : forall l a, fold_res (do_chunk axes ds) l a = fold_res (fun a x => y <- ws_of axes x ;; Ok (pure_step ds a y)) l a).
+    { induction l as [|x r IHl]; intro a; [reflexivity|]. cbn [fold_res]. rewrite do_chunk_pure. fold (ws_of axes x).
+      destruct (ws_of axes x); [|reflexivity]. cbn [bind]. apply IHl. }
+    rewrite E. fold (csegs_of). change (map (fun a => plan_csegs (snd a)) axes) with (map csegs_of axes).
+    rewrite (fold_res_map_ok _ _ _ _ _ (product_ws axes Ws HW)). f_equal.
+    apply pure_loop_correct; [exact TG|]. rewrite SG. apply Hg.
+Qed.
+
+(* getitem_nd IS getitem: the chunk loop neither changes an answer nor rejects a request the per-axis model accepts *)
+Lemma getitem_nd_equiv garbage shape k1 ts dt li ds ixs :
+  Forall (fun d => 0 <= d) shape -> (forall sh, shaped sh (garbage sh)) ->
+  mk_lazy shape k1 ts dt = Ok li ->
+  getitem_nd garbage li ds ixs = getitem li ds ixs.
+Proof.
+  intros Hs Hg HM.
+  pose proof (mk_lazy_lookup_length _ _ _ _ _ HM) as HLk.
+  assert (Hsh : li_shape li = shape).
+  { unfold mk_lazy in HM. destruct (mapM _ _); [|discriminate]. cbn [bind] in HM. destruct (lazy_shape _); [|discriminate].
+    cbn [bind] in HM. now injection HM as <-. }
+  destruct (getitem_nd garbage li ds ixs) as [out|] eqn:EN.
+  - symmetry. eapply getitem_nd_refines; eauto.
+  - destruct (getitem li ds ixs) as [out|] eqn:EG; [|reflexivity]. exfalso.
+    unfold getitem, lazy_sels in EG. unfold getitem_nd, lazy_plans in EN.
+    set (L3 := combine (combine (li_shape li) (li_lookup li)) (pad_to (List.length (li_shape li)) ixs)) in *.
+    destruct (mapM _ L3) as [sels|] eqn:ES in EG; [|discriminate]. cbn [bind] in EG.
+    assert (HP : exists plans, mapM (fun p => m <- map_stage2 (snd (fst p)) (snd p) ;; axis_plan (fst (fst p)) m) L3 = Ok plans).
+    { apply mapM_all_ok. intros x Hx E. destruct (mapM_ok_in _ _ _ x ES Hx) as [y Ey]. unfold axis_sel in Ey.
+      destruct (map_stage2 _ _) as [m|]; [|discriminate]. cbn [bind] in *. destruct (axis_plan _ m); [discriminate E|discriminate Ey]. }
+    destruct HP as [plans EP]. rewrite EP in EN. cbn [bind] in EN.
+    assert (HL3 : List.length L3 = List.length (li_shape li)).
+    { unfold L3. rewrite !combine_length, pad_to_length. lia. }
+    assert (Hlen : List.length plans = List.length (li_shape li)) by (apply mapM_ok_length in EP; lia).
+    assert (HFst : map (fun x => fst (fst x)) L3 = li_shape li).
+    { unfold L3. rewrite <- map_map. rewrite map_fst_combine by (rewrite pad_to_length, combine_length; lia).
+      now rewrite map_fst_combine. }
+    assert (HT : Forall plan_tiled plans).
+    { eapply mapM_Forall_ok; [|exact EP]. intros x y Hx. cbn beta in Hx.
+      destruct (map_stage2 _ _) as [m|]; [|discriminate]. cbn [bind] in Hx. eapply axis_plan_tiled; exact Hx. }
+    assert (HMo : Forall plan_mono plans).
+    { apply mapM_ok_Forall2 in EP. clear -EP Hs Hsh HFst. rewrite <- Hsh in Hs. rewrite <- HFst in Hs. clear HFst Hsh.
+      induction EP as [|x y l l' Hx _ IH]; [constructor|]. cbn [map] in Hs. inversion Hs; subst.
+      constructor; [|apply IH; assumption].
+      destruct (map_stage2 _ _) as [m|]; [|discriminate]. cbn [bind] in Hx. eapply axis_plan_mono; eauto. }
+    assert (HGa : mapM (fun a => axis_gather (fst a) (snd a)) (combine (li_shape li) plans) = Ok sels).
+    { rewrite <- ES. unfold axis_sel. symmetry.
+      transitivity (mapM (fun x => y <- (m <- map_stage2 (snd (fst x)) (snd x) ;; axis_plan (fst (fst x)) m) ;;
+                                 axis_gather (fst (fst x)) y) L3).
+      { apply mapM_ext_in. intros x _. destruct (map_stage2 _ _); reflexivity. }
+      rewrite (mapM_bind_combine _ (fun x y => axis_gather (fst (fst x)) y) L3 plans EP).
+      rewrite (mapM_combine_map (fun x => fst (fst x)) axis_gather). now rewrite HFst. }
+    destruct (nd_extract_complete garbage _ _ ds sels Hlen HT HMo Hg HGa) as [EX SH].
+    rewrite EX in EN. cbn [bind] in EN. rewrite <- SH in EN. congruence.
+Qed.
